@@ -101,6 +101,7 @@ def main():
     ap.add_argument("--jobs", type=int, default=4)
     ap.add_argument("--seeded", action="store_true", help="run seeded/<name>/patch.diff instead of selftest/mutants.json")
     ap.add_argument("--out", default=None)
+    ap.add_argument("--wave", type=int, default=None, help="with --seeded: only changes whose meta.json has this wave number")
     a = ap.parse_args()
     if a.seeded:
         muts = []
@@ -110,6 +111,8 @@ def main():
             if not os.path.exists(mp):
                 continue
             meta = json.load(open(mp))
+            if a.wave is not None and meta.get("wave") != a.wave:
+                continue
             demo = os.path.join(sd, name, "demo.py")
             muts.append({"id": name, "property": meta["property"], "patch": os.path.join(sd, name, "patch.diff"), "checks": meta.get("checks"), "tier": meta.get("tier_needed", a.tier), "demo": demo if os.path.exists(demo) else None})
     else:
